@@ -15,6 +15,7 @@
 namespace dsim { extern thread_local int t_bypass; }
 
 namespace smc { int g_hash_mode = 0; }   // per-run hashing knob of the set/map subjects (one definition per binary)
+namespace smc { struct IBase; std::vector<IBase*>* g_ipool = nullptr; }   // node pool of the intrusive set subjects (subjects/intrusive_common.h)
 
 namespace vh {
 
